@@ -40,7 +40,8 @@ static void case_history(const Args &a, long idx, bool wantDesc, CaseResult &res
     if (!transactions) router->setTransactionUse(false);
     // some histories also change a routing parameter (shapeBufferDistance) between transactions: the fresh router is built with the current value
     bool paramHistory = R.coin(orth ? 0.3 : 0.08); double buf = 0; bool bufChanged = false; static const double bufs[] = {0, 0.25, 0.5, 0.75};
-    if (paramHistory && R.coin(0.5)) { buf = bufs[R.ri(1, 3)]; router->setRoutingParameter(Avoid::shapeBufferDistance, buf); }
+    // (polyline histories start unbuffered: everything after their first change is F95 territory)
+    if (paramHistory && R.coin(0.5) && orth) { buf = bufs[R.ri(1, 3)]; router->setRoutingParameter(Avoid::shapeBufferDistance, buf); }
     struct Guard { Avoid::Router *&r; ~Guard() { if (!std::uncaught_exception()) delete r; } } guard{router};   // a router an assertion unwound through is abandoned, not destroyed
 
     auto fits = [&](const IPoly &pl, int skip) {
